@@ -780,6 +780,51 @@ def level_rounding():
             emit_pair(x, y, BINOPS)
             emit_pair(y, x, BINOPS)
 
+GO_INT_TYPES = [('int', -2 ** 63, 2 ** 63 - 1), ('int8', -2 ** 7, 2 ** 7 - 1), ('int16', -2 ** 15, 2 ** 15 - 1), ('int32', -2 ** 31, 2 ** 31 - 1),
+                ('int64', -2 ** 63, 2 ** 63 - 1), ('uint', 0, 2 ** 64 - 1), ('uint8', 0, 2 ** 8 - 1), ('uint16', 0, 2 ** 16 - 1),
+                ('uint32', 0, 2 ** 32 - 1), ('uint64', 0, 2 ** 64 - 1), ('uintptr', 0, 2 ** 64 - 1)]
+
+def nearest_float(n):
+    try:
+        return float(n)          # correctly rounded, ties to even
+    except OverflowError:
+        return INF if n > 0 else -INF
+
+def level_goapi():
+    # the conversions a host application uses to take numbers out of (and put them into) the interpreter:
+    # AsInt into every Go integer type, AsInt32, Int.Int64/Uint64/Float/Sign/BigInt, AsFloat, NumberToInt,
+    # MakeInt64/MakeUint64/MakeBigInt round trips
+    OUT.level('5-go-api-conversions')
+    small_edges = []
+    for k in (7, 8, 15, 16, 31, 32, 63, 64):
+        for d in (-2, -1, 0, 1, 2):
+            small_edges += [2 ** k + d, -(2 ** k) + d]
+    xs = []
+    for x in INTS + small_edges + rounding_ints():
+        if x not in xs:
+            xs.append(x)
+    for n in xs:
+        for t, lo, hi in GO_INT_TYPES:
+            emit('go_asint', [n, t], lambda: enc(n if lo <= n <= hi else ERR))
+        emit('go_asint32', [n], lambda: enc(n if -2 ** 31 <= n <= 2 ** 31 - 1 else ERR))
+        emit('go_int64', [n], lambda: enc(n if -2 ** 63 <= n <= 2 ** 63 - 1 else ERR))
+        emit('go_uint64', [n], lambda: enc(n if 0 <= n <= 2 ** 64 - 1 else ERR))
+        emit('go_float', [n], lambda: enc(nearest_float(n)))
+        emit('go_asfloat', [n], lambda: enc(nearest_float(n)))
+        emit('go_numbertoint', [n], lambda: enc(n))
+        emit('go_sign', [n], lambda: enc((n > 0) - (n < 0)))
+        emit('go_roundtrip', [n], lambda: enc(n))
+    for x in FLOATS:
+        emit('go_asfloat', [x], lambda: enc(x))
+        emit('go_numbertoint', [x], lambda: enc(int(x)) if finite(x) else 'E')
+        for t, lo, hi in GO_INT_TYPES[:2]:
+            emit('go_asint', [x, t], lambda: 'E')
+    for v in (True, None, 'x'):
+        emit('go_asint', [v, 'int'], lambda: 'E')
+        emit('go_asint32', [v], lambda: 'E')
+        emit('go_numbertoint', [v], lambda: 'E')
+        emit('go_asfloat', [v], lambda: 'E')
+
 def level_sampled():
     OUT.level('9-sampled-extra')
     rnd = random.Random(10)
@@ -813,6 +858,7 @@ def main():
     level_bool_operands()
     level_range()
     level_builtins()
+    level_goapi()
     if THOROUGH:
         level_ternary()
     level_sampled()
